@@ -542,7 +542,7 @@ func checkR02d(p *Prog, r *Report) {
 					c := cls
 					if cls == "identifier" {
 						if types.Universe.Lookup(lit) != nil {
-							if _, isConst := pr[1].(*ssa.Const); isConst && p.hasRecogniserFact(p.RelsAt(rm, in)) {
+							if _, isConst := pr[1].(*ssa.Const); isConst && (p.hasRecogniserFact(p.RelsAt(rm, in)) || p.hasRecogniserFact(p.entryRels(f))) {
 								continue // compared only after the identifier was resolved to the predeclared object
 							}
 							c = "predeclared name"
